@@ -269,6 +269,11 @@ def object_findings(name, obj):
         return [('compose:' + type(obj).__name__, '{}: compose() raised {}'.format(type(obj).__name__, core.err_line(exc)))]
     ref = r_encode(obj)
     tname = type(obj).__name__
+    if tname == 'SshProtocolMessage' and len(data) > 255:
+        # RFC 4253 §4.2: "The maximum length of the string is 255 characters, including the Carriage Return and
+        # Line Feed" — composed without complaint, refused by the library's own parser
+        return [('banner-composed-over-255', 'SshProtocolMessage.compose() produced an identification string of {} '
+                 'bytes ({}…); RFC 4253 allows 255 and the parser refuses it'.format(len(data), hx(data)[:60]))]
     if ref is not None and ref != data:
         bad.append(('encode:' + tname, '{}: composed {} but the RFC encoding is {}'.format(tname, hx(data)[:400], hx(ref)[:400])))
     # the reference decoder recovers the values from what the implementation composed
